@@ -432,8 +432,10 @@ class Runner(object):
 
     def taint_row(self, k, rid, but=None):
         """a write through the library to row (k, rid): instances of earlier incarnations are out of date"""
+        misuse = but is not None and (self.held[but].dead or self.held[but].destroyed)
         for h2 in self.others_on_row(k, rid, but):
-            if self.held[h2].dead:
+            # (a write through a dead instance that hits the re-used key's new row is the application's fault)
+            if self.held[h2].dead or misuse:
                 self.held[h2].tainted = True
 
     def taint_all(self, k, rid):
@@ -693,8 +695,9 @@ class Runner(object):
 
     def expired_now(self, hd):
         hd.pend = {}
-        hd.incache = False
         hd.tainted = False
+        for h2 in self.others_on_row(hd.k, hd.rid):
+            self.held[h2].incache = False     # cache.expire(id) drops the entry of the KEY, whoever it points to
 
     def op_expire(self, h):
         hd = self.need(h)
@@ -763,6 +766,7 @@ class Runner(object):
                     hd2 = self.held[h2]
                     if kind == 'c':
                         hd2.destroyed = True
+                        hd2.dead = True
                         hd2.tainted = True
                         hd2.incache = False
                     else:
@@ -808,11 +812,12 @@ class Runner(object):
             # C16: deletes are immediate
             if self.rawrow(k, rid) is not None or sum(1 for s_ in st if s_ == 'D %d %d' % (k, rid)) != 1:
                 self.fail('delete-not-immediate', k, 'after destroySelf() the row is %r; statements %r' % (self.rawrow(k, rid), st))
-            if not hd.destroyed:
-                self.taint_row(k, rid, h)
+            self.taint_row(k, rid, h)     # instances of earlier incarnations; everything if this was a dead instance itself
             hd.destroyed = True
+            hd.dead = True
             hd.tainted = True
-            hd.incache = False
+            for h2 in self.others_on_row(k, rid):
+                self.held[h2].incache = False
         else:
             self.notes.add('destroySelf() raised %s inside the dependents loop' % out)
             for hd2 in self.held.values():
